@@ -1,4 +1,5 @@
 import NunavutVerif.Lemmas.LineBuffer
+import NunavutVerif.Lemmas.PostProc
 /-!
 # C15 — line post-processing is chunking-independent and changes only what it documents
 
@@ -231,5 +232,226 @@ example : output [.trim, .limit 1] [0, 0] [['a', ' ', '\r'], [], ['\n', '\n', ' 
 example : trimStr ['a', ' ', 'b', '\t', ' '] = ['a', ' ', 'b'] := by decide
 example : (limitLines 1 0 [⟨[], LF⟩, ⟨[], LF⟩, ⟨['x'], LF⟩, ⟨[], LF⟩]) =
     [⟨[], LF⟩, ⟨[], []⟩, ⟨['x'], LF⟩, ⟨[], LF⟩] := by decide
+
+/-! ## Round 2: the destination of a copied support file, processor objects, the command line -/
+
+/-- T7a: the lines a text file yields (universal line ends, untranslated — `open(resource, newline="")`) are a
+chunking of its text, so `C15_copy_is_linewise` applies to the real file iteration. -/
+theorem C15_file_lines_are_a_chunking (text : Str) : (fileLines text).flatten = text :=
+  fileLines_flatten text
+
+/-- T7b `SupportGenerator._copy_header`: a run that is not a dry run and may write (the file is absent or
+`allow_overwrite` is on) leaves **exactly** the processors applied line by line to the resource's text — whatever the
+destination held before (absent, a verbatim copy from an earlier run, anything else) and whatever state the processor
+objects were in.  With no line processor that is the resource itself. -/
+theorem C15_copy_header_ignores_destination (run : CopyRun) (resource : Str) (dst : Option Str)
+    (hd : run.dry = false) (ha : run.allow = true ∨ dst = none) (hl : run.start.length = run.pps.length) :
+    copyHeader run resource dst = some (some (linewise run.pps resource)) := by
+  have hperm : ¬ (dst.isSome = true ∧ run.allow = false) := by
+    rintro ⟨h1, h2⟩
+    rcases ha with ha | ha
+    · simp [ha] at h2
+    · simp [ha] at h1
+  unfold copyHeader
+  simp only [hd, Bool.false_eq_true, if_false, hperm]
+  by_cases h0 : run.pps.length = 0
+  · have : run.pps = [] := List.length_eq_zero_iff.mp h0
+    simp [this, linewise_nil]
+  · simp only [h0, if_false]
+    have h := C15_copy_is_linewise run.pps run.start (fileLines resource) resource (fileLines_flatten resource) hl
+    simp only [genFiles, List.cons.injEq, and_true] at h
+    simp [linewise, h]
+
+/-- T7c: a dry run and a refused overwrite leave the destination as it is. -/
+theorem C15_copy_header_dry_or_refused (run : CopyRun) (resource : Str) (dst : Option Str) :
+    (run.dry = true → copyHeader run resource dst = some dst) ∧
+    (run.dry = false → dst.isSome = true → run.allow = false → copyHeader run resource dst = none) := by
+  constructor
+  · intro h; simp [copyHeader, h]
+  · intro h1 h2 h3; simp [copyHeader, h1, h2, h3]
+
+/-- T7d: histories.  After any sequence of earlier runs into the same directory — with other processor lists, dry
+runs, refused runs, from any initial content — the file a (default, overwriting) run leaves is the one it would
+leave in a fresh directory: a function of the resource text and of that run's processor list only. -/
+theorem C15_copy_history_last_run_decides (resource : Str) (dst0 : Option Str) (runs : List CopyRun)
+    (last : CopyRun) (hd : last.dry = false) (ha : last.allow = true)
+    (hl : last.start.length = last.pps.length) :
+    (copyHistory resource dst0 (runs ++ [last])).2 = some (linewise last.pps resource) ∧
+    (copyHistory resource none [last]).2 = some (linewise last.pps resource) := by
+  constructor
+  · rw [copyHistory_append]
+    simp [copyHistory, C15_copy_header_ignores_destination last resource _ hd (.inl ha) hl]
+  · simp [copyHistory, C15_copy_header_ignores_destination last resource none hd (.inl ha) hl]
+
+/-- T10a `LimitEmptyLines` as an object, limit `N ≥ 0` as `argparse` (`type=int`) or `int(config)` deliver it:
+`__call__` is the step function the limiter theorems are about, `reset()` gives the freshly constructed object, and
+a fresh object starts counting at zero. -/
+theorem C15_limit_object (n : Nat) (o : LimitObj) (l : Line) (ho : o.max = (n : Int)) :
+    (o.call l).1 = (limitStep n o.count l).1 ∧ (o.call l).2 = ⟨o.max, (limitStep n o.count l).2⟩ ∧
+    o.reset = LimitObj.new o.max ∧ (LimitObj.new o.max).count = 0 ∧ o.reset.reset = o.reset := by
+  obtain ⟨m, c⟩ := o
+  simp only at ho
+  subst ho
+  simp [limitObj_call_nat, LimitObj.reset, LimitObj.new]
+
+/-- T10b (observation, outside the property's `N ≥ 0`): the command line accepts a negative
+`--pp-max-emptylines`; such a limiter elides **every** line, empty or not. -/
+theorem C15_limit_object_negative_elides_everything (n : Int) (h : n < 0) (s : Nat) (l : Line) :
+    (LimitObj.call ⟨n, s⟩ l).1 = ⟨[], []⟩ := by
+  unfold LimitObj.call
+  by_cases hc : l.content.length = 0
+  · have : n < (s : Int) + 1 := by omega
+    simp [hc, this]
+  · simp [hc, h]
+
+/-- T3b `TrimTrailingWhitespace.__call__`: for every content (also one containing line breaks, as a direct caller may
+pass) and every terminator — `""`, `"\n"`, `"\r\n"` or anything else — the terminator is returned as it is, the
+object keeps no state, and trimming twice is trimming once. -/
+theorem C15_trim_call (s : Nat) (l : Line) :
+    Proc.trim.call s l = (some ⟨trimStr l.content, l.term⟩, s) ∧ trim (trim l) = trim l := by
+  refine ⟨rfl, ?_⟩
+  obtain ⟨ws, h1, h2, h3⟩ := trimStr_spec l.content
+  simp [trim, trimStr_of_no_trailing_ws _ h3]
+
+/-- T1 for arbitrary processor objects (`__call__` any function of its own state and the line, `None` results
+included): text written, `ValueError` or not, and the objects' states afterwards are the same for every chunking of
+the same text. -/
+theorem C15_any_processors_chunking_independent (ps : List Proc) (ss : List Nat) (c₁ c₂ : List Str)
+    (h : c₁.flatten = c₂.flatten) : genOutP ps ss c₁ = genOutP ps ss c₂ := by
+  unfold genOutP
+  rw [C15_chunking_independent, C15_chunking_independent, h]
+
+/-- The built-in classes, as objects, compute the `PP` pipeline the other theorems are about (and never return
+`None`). -/
+theorem C15_builtin_objects_are_the_pipeline (pps : List PP) (ss : List Nat) (chunks : List Str)
+    (hl : ss.length = pps.length) :
+    (genOutP (pps.map PP.toProc) ss chunks).1 = output pps (List.replicate pps.length 0) chunks ∧
+    (genOutP (pps.map PP.toProc) ss chunks).2.1 = false := by
+  unfold genOutP output
+  exact writeLines_sim pps _ _ _ (resetProcs_rel pps ss hl)
+
+/-- T6 for arbitrary processor objects that honour the documented `reset` contract ("must return to its initial
+state"): the k-th file of a run — if the run gets that far — is what that file alone gives from the initial states. -/
+theorem C15_reset_contract_files_independent (ps : List Proc) (inits ss : List Nat) (files : List (List Str))
+    (hc : ResetAllTo ps inits) (hl : ss.length = ps.length) (k : Nat) (r : Str × Bool)
+    (hk : (genFilesP ps ss files)[k]? = some r) :
+    ∃ f, files[k]? = some f ∧ r = ((genOutP ps inits f).1, (genOutP ps inits f).2.1) := by
+  have hi : resetProcs ps inits = inits := resetProcs_of_contract ps inits inits hc (ResetAllTo_length ps inits hc)
+  induction files generalizing ss k with
+  | nil => simp [genFilesP] at hk
+  | cons f fs ih =>
+    have hr : resetProcs ps ss = inits := resetProcs_of_contract ps inits ss hc hl
+    have he : genOutP ps ss f = genOutP ps inits f := by simp [genOutP, hr, hi]
+    unfold genFilesP at hk
+    simp only [he] at hk
+    by_cases hraise : (genOutP ps inits f).2.1 = true
+    · simp only [hraise, if_true] at hk
+      cases k with
+      | zero => exact ⟨f, rfl, by simpa [hraise] using hk.symm⟩
+      | succ k => simp at hk
+    · have hraise' : (genOutP ps inits f).2.1 = false := by simpa using hraise
+      simp only [hraise', Bool.false_eq_true, if_false] at hk
+      cases k with
+      | zero => exact ⟨f, rfl, by simpa [hraise'] using hk.symm⟩
+      | succ k =>
+        have hl' : (genOutP ps inits f).2.2.length = ps.length := by
+          unfold genOutP; rw [writeLines_length, hi]; exact ResetAllTo_length ps inits hc
+        simpa using ih _ hl' k (by simpa using hk)
+
+/-- `LimitEmptyLines` (any integer limit) and the `reset`-overriding user class honour the contract; the class that
+keeps state without overriding `reset` does not, and files then depend on their predecessors (the documented
+responsibility of the subclass). -/
+theorem C15_builtin_reset_contract (n : Int) :
+    (Proc.limit n).ResetsTo 0 ∧ (Proc.custom 3).ResetsTo 0 ∧ ¬ ∃ i, (Proc.custom 2).ResetsTo i := by
+  refine ⟨fun s => rfl, fun s => rfl, ?_⟩
+  rintro ⟨i, h⟩
+  have h0 := h 0
+  have h1 := h 1
+  simp [Proc.custom] at h0 h1
+  omega
+
+/-- T9b the command line with integer limits, closed form: the processors of a CLI run are the ones the flags ask
+for, in flag order, then the file-mode setter, then — only if the flags did not give one — the limiter and/or the
+trimmer of the language configuration. -/
+theorem C15_cli_processors_closed_form (a : PPArgs) (cfgLimit : Option Int) (cfgTrim : Bool) :
+    cliProcessorsZ a cfgLimit cfgTrim =
+      (if a.trim then [CItem.trim] else []) ++
+      (match a.maxEmpty with | some n => [CItem.limit n] | none => []) ++
+      (match a.prog with | some k => [CItem.prog k] | none => []) ++ [CItem.mode a.fileMode] ++
+      (match a.maxEmpty, cfgLimit with | none, some n => [CItem.limit n] | _, _ => []) ++
+      (if cfgTrim ∧ a.trim = false then [CItem.trim] else []) := by
+  obtain ⟨tr, mx, pr, fm⟩ := a
+  cases tr <;> cases mx <;> cases pr <;> cases cfgLimit <;> cases cfgTrim <;>
+    simp [cliProcessorsZ, cliListZ, assembleZ, CItem.isLimit, CItem.isTrim]
+
+/-- T9c the order in which a generated text meets the line processors of a CLI run. -/
+theorem C15_cli_line_processor_order (a : PPArgs) (cfgLimit : Option Int) (cfgTrim : Bool) :
+    lineProcs (cliProcessorsZ a cfgLimit cfgTrim) =
+      (if a.trim then [CItem.trim] else []) ++
+      (match a.maxEmpty, cfgLimit with
+       | some n, _ => [CItem.limit n] | none, some n => [CItem.limit n] | none, none => []) ++
+      (if cfgTrim ∧ a.trim = false then [CItem.trim] else []) := by
+  rw [C15_cli_processors_closed_form]
+  obtain ⟨tr, mx, pr, fm⟩ := a
+  cases tr <;> cases mx <;> cases pr <;> cases cfgLimit <;> cases cfgTrim <;>
+    simp [lineProcs, CItem.isLine]
+
+/-- T8b both generators of a run (`create_default_generators` hands the *same* list to the code generator and to the
+support generator, and each constructor runs `_handle_post_processors` on it) end up with the same processors:
+augmenting is idempotent. -/
+theorem C15_assemble_idempotent (given : Option (List CItem)) (cfgLimit : Option Int) (cfgTrim : Bool) :
+    assembleZ (assembleZ given cfgLimit cfgTrim) cfgLimit cfgTrim = assembleZ given cfgLimit cfgTrim := by
+  cases given with
+  | none =>
+    cases cfgLimit <;> cases cfgTrim <;> simp [assembleZ, CItem.isLimit, CItem.isTrim]
+  | some l =>
+    cases cfgLimit with
+    | none =>
+      cases cfgTrim
+      · simp [assembleZ]
+      · by_cases ht : l.any CItem.isTrim = true
+        · simp [assembleZ, ht]
+        · simp [assembleZ, ht, CItem.isTrim]
+    | some n =>
+      by_cases hlim : l.any CItem.isLimit = true
+      · cases cfgTrim
+        · simp [assembleZ, hlim]
+        · by_cases ht : l.any CItem.isTrim = true
+          · simp [assembleZ, hlim, ht]
+          · simp [assembleZ, hlim, ht, CItem.isTrim, CItem.isLimit]
+      · cases cfgTrim
+        · simp [assembleZ, hlim, CItem.isLimit]
+        · by_cases ht : l.any CItem.isTrim = true
+          · simp [assembleZ, hlim, ht, CItem.isLimit, CItem.isTrim]
+          · simp [assembleZ, hlim, ht, CItem.isLimit, CItem.isTrim]
+
+/-! ### Non-vacuity and witnesses, round 2 -/
+
+-- the seeded "leave an identical file alone" change would keep the verbatim copy; the code does not:
+example : copyHistory ['a', ' ', '\n', '\n', '\n', 'b'] none
+    [⟨[], [], false, true⟩, ⟨[.trim, .limit 1], [0, 0], false, true⟩]
+    = ([some (some ['a', ' ', '\n', '\n', '\n', 'b']), some (some ['a', '\n', '\n', 'b'])],
+       some ['a', '\n', '\n', 'b']) := by decide
+example : copyHistory ['a', ' ', '\r', '\n'] (some ['o', 'l', 'd'])
+    [⟨[.trim], [0], true, true⟩, ⟨[.trim], [0], false, false⟩, ⟨[.trim], [5], false, true⟩]
+    = ([some (some ['o', 'l', 'd']), none, some (some ['a', '\r', '\n'])], some ['a', '\r', '\n']) := by decide
+example : fileLines ['a', '\r', 'b', '\r', '\n', '\n', 'c'] = [['a', '\r'], ['b', '\r', '\n'], ['\n'], ['c']] := by
+  decide
+-- a stateful user processor without `reset`: the second file depends on the first
+example : genFilesP [Proc.custom 2] [0] [[['a', '\n']], [['a', '\n']]] = [(['#', 'a', '\n'], false), (['a', '\n'], false)] := by
+  decide
+example : genFilesP [Proc.custom 3] [0] [[['a', '\n']], [['a', '\n']]]
+    = [(['#', 'a', '\n'], false), (['#', 'a', '\n'], false)] := by decide
+-- a processor returning `None` ends the run with the file partly written
+example : genFilesP [Proc.custom 0, Proc.custom 1] [0, 0] [[['a', '\n', 'x', '\n', 'b']], [['c']]]
+    = [(['/', '*', ' ', 'a', ' ', '*', '/', '\n', '/', '*', ' ', 'x', ' ', '*', '/', '\n', '/', '*', ' ', 'b', ' ', '*', '/'], false),
+       (['/', '*', ' ', 'c', ' ', '*', '/'], false)] := by decide
+example : genFilesP [Proc.custom 1, Proc.custom 0] [0, 0] [[['a', '\n', 'x', '\n', 'b']], [['c']]]
+    = [(['/', '*', ' ', 'a', ' ', '*', '/', '\n'], true)] := by decide
+-- `--pp-max-emptylines -1`: nothing is left of the file
+example : (genOutP [Proc.limit (-1)] [0] [['a', '\n', 'b', '\n']]).1 = [] := by decide
+-- `nnvg --pp-max-emptylines 2 -l c` (configuration: limit 1, trim): the user's limit, and the limiter runs BEFORE the trimmer
+example : lineProcs (cliProcessorsZ ⟨false, some 2, some 1, 0o444⟩ (some 1) true) = [.limit 2, .trim] := by decide
+example : cliProcessorsZ ⟨true, none, none, 0o444⟩ (some 1) true = [.trim, .mode 0o444, .limit 1] := by decide
 
 end NunavutVerif.LineBuffer
